@@ -174,7 +174,8 @@ def gen_interop_plan(rng, prof=None):
                       'data': 'greeting', 'n': rng.choice([1, 1, 2, 3])})
     plan = {'server': server, 'config': cfg,
             'client': {'kind': kind, 'request_timeout': rt, 'ops': ops,
-                       'handler_actions': []},
+                       'handler_actions': [],
+                       'slow_ws_write': rng.choice([0, 0, 0, 1, 2, 4])},
             'server_ops': sops, 'link_faults': link,
             'app_opts': {'connect': {}, 'handler_faults': greet,
                          'coroutine_handlers': rng.random() < 0.7},
